@@ -4,7 +4,6 @@
 package c07
 
 import (
-	"fmt"
 	"go/ast"
 	"go/token"
 	"go/types"
@@ -123,16 +122,6 @@ func isEntryDB(info *types.Info, e ast.Expr, entry types.Object) bool {
 	return ok && core.IsFieldNamed(info, e, "BinEntry", "DB") && entry != nil && core.ObjOf(info, sel.X) == entry
 }
 
-func sourceName(info *types.Info, e ast.Expr, entry types.Object) string {
-	switch {
-	case isTargetDB(info, e):
-		return "TargetDB"
-	case isEntryDB(info, e, entry):
-		return "entry.DB"
-	}
-	return ""
-}
-
 func worker(c *core.Ctx, fn *core.Fn, short string, w *ast.FuncLit, rs *ast.RangeStmt) {
 	info := fn.Pkg.TypesInfo
 	g := cfgq.OfLit(c.Program, info, w)
@@ -177,7 +166,6 @@ func worker(c *core.Ctx, fn *core.Fn, short string, w *ast.FuncLit, rs *ast.Rang
 		f, _ := o.(*types.Func)
 		return isCommon(f, "RestoreRdbEntry")
 	})
-	selects := core.Calls(w, info, func(_ *ast.CallExpr, o types.Object) bool { f, _ := o.(*types.Func); return isCommon(f, "SelectDB") })
 	if len(opens) != 1 || len(restores) == 0 {
 		c.Undecidedf("R1.private", short+"/conn", w.Pos(), "expected one OpenRedisConn and at least one RestoreRdbEntry call inside the worker literal, found %d and %d", len(opens), len(restores))
 		return
@@ -195,176 +183,7 @@ func worker(c *core.Ctx, fn *core.Fn, short string, w *ast.FuncLit, rs *ast.Rang
 	}
 	c.Check("R1.private", short+"/conn", openAs.Pos(), !parallel || within(conn, w),
 		"the connection variable must be declared inside the worker literal: workers sharing one connection interleave SELECT/RESTORE, so a key is restored into the database another worker selected")
-	// ---- tracker
-	trackers := map[types.Object]bool{}
-	core.Inspect(rs.Body, func(n ast.Node) bool {
-		be, ok := n.(*ast.BinaryExpr)
-		if !ok || be.Op != token.NEQ && be.Op != token.EQL {
-			return true
-		}
-		for _, pr := range [][2]ast.Expr{{be.X, be.Y}, {be.Y, be.X}} {
-			if id, ok := Strip(info, pr[0]).(*ast.Ident); ok && sourceName(info, pr[1], entry) != "" {
-				if v, ok := core.ObjOf(info, id).(*types.Var); ok && !v.IsField() && v.Parent() != v.Pkg().Scope() {
-					trackers[v] = true
-				}
-			}
-		}
-		return true
-	})
-	if len(trackers) != 1 {
-		c.Undecidedf("R2.pair", short, rs.Pos(), "expected exactly one local variable compared with TargetDB / entry.DB (the selected-db tracker), found %d", len(trackers))
-		return
-	}
-	var tracker types.Object
-	for t := range trackers {
-		tracker = t
-	}
-	inLoop := within(tracker, rs.Body)
-	c.Check("R1.private", short+"/lastdb", tracker.Pos(), (!parallel || within(tracker, w)) && !inLoop,
-		"the selected-db tracker must be declared inside the worker literal and outside the entry loop. Shared: worker A selects db 1 and records it, worker B (connection still on db 0) then finds tracker == 1 for its db-1 entry, skips SELECT and restores the key into db 0. "+
-			"Re-declared per entry: after a db-1 entry the connection stays on db 1, the next db-0 entry compares with the fresh 0 and is restored into db 1")
-	// R2.init
-	if v, ok := initConst(info, fn.Decl.Body, tracker); !ok {
-		c.Undecidedf("R2.init", short, tracker.Pos(), "initial value of the tracker is not a constant")
-	} else {
-		c.Check("R2.init", short, tracker.Pos(), v == 0,
-			fmt.Sprintf("the tracker must start at 0, the database of a fresh connection; it starts at %d, so the first entries of db %d are restored into db 0 without SELECT", v, v))
-	}
-	isAssign := func(n ast.Node) bool { as, _ := AssignsTo(info, n, tracker); return as != nil }
-	isSelect := func(n ast.Node) bool {
-		for _, call := range cfgq.ExecCalls(n) {
-			if isCommon(core.CalleeFunc(info, call), "SelectDB") {
-				return true
-			}
-		}
-		return false
-	}
-	cutHead := func(b *cfg.Block, s int) bool { return b.Succs[s] == head }
-	connected := func(a, b cfgq.Point) bool { // within one iteration
-		return g.Path(cfgq.Query{From: a, After: true, Target: IsNode(b.Node()), AvoidEdge: cutHead}) != nil ||
-			g.Path(cfgq.Query{From: b, After: true, Target: IsNode(a.Node()), AvoidEdge: cutHead}) != nil
-	}
-	assigns := g.Points(func(n ast.Node) bool { return isAssign(n) && Within(n, rs.Body) })
-	// R2.pair / R2.source per select site
-	for _, call := range selects {
-		sp, ok := g.Find(call)
-		if !ok || len(call.Args) != 2 {
-			c.Undecidedf("R2.pair", short+"/select", call.Pos(), "SelectDB call not in the worker's control-flow graph")
-			continue
-		}
-		c.Check("R2.conn", short+"/select", call.Pos(), core.ObjOf(info, call.Args[0]) == conn, "SelectDB must act on the worker's own connection")
-		arg := Strip(info, call.Args[1])
-		argIsTracker := core.ObjOf(info, arg) == tracker
-		var src ast.Expr
-		if !argIsTracker {
-			src = arg
-		}
-		paired, mismatch, late := 0, "", false
-		for _, ap := range assigns {
-			if !connected(ap, sp) {
-				continue
-			}
-			_, rhs := AssignsTo(info, ap.Node(), tracker)
-			if rhs == nil {
-				continue
-			}
-			rhs = Strip(info, rhs)
-			paired++
-			if argIsTracker {
-				src = rhs
-				if g.Path(cfgq.Query{From: ap, After: true, Target: IsNode(sp.Node()), AvoidEdge: cutHead}) == nil {
-					late = true
-				}
-			} else if !pat.Same(info, rhs, arg) {
-				mismatch = fmt.Sprintf("selects `%s` but records `%s`", c.Src(arg), c.Src(rhs))
-			}
-		}
-		name := "?"
-		if src != nil {
-			if s := sourceName(info, src, entry); s != "" {
-				name = s
-			}
-		}
-		if name == "?" { // unpaired SelectDB(c, tracker): name the site after the comparison that guards it
-			for _, cand := range []string{"TargetDB", "entry.DB"} {
-				if ok, _ := g.OnlyViaFact(sp, func(f cfgq.Fact) bool { return cmpSource(info, f.Expr, tracker, entry) == cand }); ok {
-					name = cand
-				}
-			}
-		}
-		key := short + "/select:" + name
-		switch {
-		case paired == 0:
-			c.Failf("R2.pair", key, call.Pos(), "SelectDB without recording the selected db in the tracker: the tracker keeps its old value, so after db-1 entries a db-0 entry finds tracker == 0, skips SELECT and is restored into db 1")
-		case late:
-			c.Failf("R2.pair", key, call.Pos(), "SelectDB(c, tracker) executes before the tracker is updated: the previously selected db is selected again and the entry is restored into the wrong database")
-		case mismatch != "" && sourceName(info, arg, entry) != "" && name != "?":
-			c.Failf("R2.pair", key, call.Pos(), "%s: connection and tracker disagree, later entries skip SELECT while the connection is on another database", mismatch)
-		case mismatch != "":
-			c.Undecidedf("R2.pair", key, call.Pos(), "%s; values not recognised", mismatch)
-		default:
-			// every iteration path through the select also records
-			before := g.Path(cfgq.Query{From: cfgq.Point{B: bodyBlk}, Avoid: isAssign, Target: IsNode(sp.Node())})
-			after := ReachBlock(g, sp, true, isAssign, head)
-			c.Check("R2.pair", key, call.Pos(), !(before != nil && after),
-				"some path through SelectDB does not record the selected db in the tracker (see above for the mis-restored key)", before...)
-		}
-		switch name {
-		case "TargetDB", "entry.DB":
-			want := name == "TargetDB"
-			ok, wpath := g.OnlyViaFact(sp, func(f cfgq.Fact) bool { return TargetDBSet(info, f, want) })
-			c.Check("R2.source", key, call.Pos(), ok,
-				"the database selected must be TargetDB exactly when TargetDB != -1 and the entry's own DB otherwise; here "+name+" is selected on a path where the configuration says the opposite, so keys land in the wrong database", wpath...)
-		default:
-			c.Undecidedf("R2.source", key, call.Pos(), "selected value `%s` is neither TargetDB nor the entry's DB", c.Src(call.Args[1]))
-		}
-	}
-	for _, ap := range assigns {
-		n := 0
-		for _, call := range selects {
-			if sp, ok := g.Find(call); ok && connected(ap, sp) {
-				n++
-			}
-		}
-		_, rhs := AssignsTo(info, ap.Node(), tracker)
-		rname := "?"
-		if rhs != nil && sourceName(info, rhs, entry) != "" {
-			rname = sourceName(info, rhs, entry)
-		}
-		c.Check("R2.record", short+"/record:"+rname, ap.Node().Pos(), n > 0,
-			"the tracker is updated on a path with no SelectDB: the connection stays on the old database while later entries of the recorded db skip SELECT and are restored into the old database")
-	}
-	// R2.guard: comparisons of the tracker use the source that the configuration dictates
-	for _, p := range g.Points(func(n ast.Node) bool { e, ok := n.(ast.Expr); return ok && core.Mentions(info, e, tracker) }) {
-		for _, f := range append(cfgq.Facts(p.Node().(ast.Expr), true), cfgq.Facts(p.Node().(ast.Expr), false)...) {
-			if name := cmpSource(info, f.Expr, tracker, entry); name != "" {
-				want := name == "TargetDB"
-				ok, wpath := g.OnlyViaFact(p, func(f cfgq.Fact) bool { return TargetDBSet(info, f, want) })
-				c.Check("R2.guard", short+"/cmp:"+name, p.Node().Pos(), ok,
-					"the tracker is compared with "+name+" on a path where the configuration dictates the other database: SELECT is skipped although the connection is not on the wanted database", wpath...)
-				break
-			}
-		}
-	}
-	// R2.reach: restore only after select or after an equality with the tracker was established
-	equal := func(b *cfg.Block, s int) bool {
-		return EdgeFact(g, b, s, func(f cfgq.Fact) bool {
-			be, ok := ast.Unparen(f.Expr).(*ast.BinaryExpr)
-			return ok && cmpSource(info, be, tracker, entry) != "" && (be.Op == token.EQL) == f.Val
-		})
-	}
-	for _, call := range restores {
-		rp, ok := g.Find(call)
-		if !ok {
-			continue
-		}
-		okConn := len(call.Args) == 2 && core.ObjOf(info, call.Args[0]) == conn
-		okEntry := len(call.Args) == 2 && core.ObjOf(info, call.Args[1]) == entry
-		c.Check("R2.conn", short+"/restore", call.Pos(), okConn && okEntry, "RestoreRdbEntry must be given the worker's own connection (the one SELECT was sent on) and the entry taken from the channel")
-		wpath := g.Path(cfgq.Query{From: cfgq.Point{B: bodyBlk}, Avoid: isSelect, AvoidEdge: equal, Target: IsNode(rp.Node())})
-		c.Check("R2.reach", short+"/RestoreRdbEntry", call.Pos(), wpath == nil,
-			"the restore call is reachable in an iteration without SelectDB and without having found the tracker equal to the wanted database: the entry is restored into whatever database the connection was left on", wpath...)
-	}
+	selectTracking(c, fn, short, w, rs, g, conn, entry, restores, parallel)
 	completion(c, fn, short, w, g, goStmt, spawnLoop, encl)
 	// ---- R4
 	var marks []types.Object
@@ -404,20 +223,6 @@ func worker(c *core.Ctx, fn *core.Fn, short string, w *ast.FuncLit, rs *ast.Rang
 			propagate(c, fn, short, m)
 		}
 	}
-}
-
-// cmpSource: e is `X ==/!= tracker` with X TargetDB or entry.DB; returns the source name.
-func cmpSource(info *types.Info, e ast.Expr, tracker, entry types.Object) string {
-	be, ok := ast.Unparen(e).(*ast.BinaryExpr)
-	if !ok || be.Op != token.NEQ && be.Op != token.EQL {
-		return ""
-	}
-	for _, pr := range [][2]ast.Expr{{be.X, be.Y}, {be.Y, be.X}} {
-		if core.ObjOf(info, Strip(info, pr[0])) == tracker {
-			return sourceName(info, pr[1], entry)
-		}
-	}
-	return ""
 }
 
 // initConst finds the declaration of v and returns its constant initial value.
